@@ -200,6 +200,39 @@ class Env:
         return self._h
 
 
+def join_facts(fa, fb):
+    """facts implied by both: same terms, the weaker (larger) constant"""
+    if not fa or not fb:
+        return frozenset()
+    da = {}
+    for t, c in fa:
+        da[t] = min(c, da[t]) if t in da else c
+    out = set()
+    for t, c in fb:
+        if t in da:
+            out.add((t, max(c, da[t])))
+    return frozenset(out)
+
+
+def widen_facts(old, new):
+    """facts of old that new still satisfies (a constant that had to be weakened is given up)"""
+    if not old or not new:
+        return frozenset()
+    dn = {}
+    for t, c in new:
+        dn[t] = min(c, dn[t]) if t in dn else c
+    return frozenset((t, c) for t, c in old if t in dn and dn[t] <= c)
+
+
+def facts_imply(strong, weak):
+    if not weak:
+        return True
+    ds = {}
+    for t, c in strong:
+        ds[t] = min(c, ds[t]) if t in ds else c
+    return all(t in ds and ds[t] <= c for t, c in weak)
+
+
 def widen(old, new):
     """old ∇ new: keep what both agree on, open the bound that moved"""
     m = {k: v for k, v in new.m.items() if isinstance(k, tuple) and k[0] == "d"}      # markers: present in either
@@ -221,12 +254,12 @@ def widen(old, new):
         hi = a[1] if (a[1] is not None and b[1] is not None and a[1] >= b[1]) else None
         if (lo, hi) != TOP:
             m[k] = (lo, hi)
-    return Env(m, old.facts & new.facts)
+    return Env(m, widen_facts(old.facts, new.facts))
 
 
 def contains(big, small):
     """every concrete state of small is one of big"""
-    if not big.facts <= small.facts:
+    if not facts_imply(small.facts, big.facts):
         return False
     for k in small.m:
         if isinstance(k, tuple) and k[0] == "d" and k not in big.m:
@@ -258,7 +291,7 @@ class Access:
 
 class FxAnalyzer:
     def __init__(self, func, types, cap=CAP, soft=True, state_ids=None, entry_fields=None, callee_post=None,
-                 other_ptrs=None, state_rec=None, entry_facts=None, candidates=None):
+                 other_ptrs=None, state_rec=None, entry_facts=None, candidates=None, sym_ext=None):
         self.f, self.ty, self.cap = func, types, cap
         self.soft = soft           # use the value range of narrow unsigned types (sound for proofs; never the ground of a report)
         self.state_ids = state_ids or set()      # variables holding the pointer to the state structure
@@ -288,6 +321,23 @@ class FxAnalyzer:
                 l = strip(n["e"])
                 if isinstance(l, dict) and l.get("k") == "Ref" and not self.ty.array(l.get("t") or ""):
                     self.untracked.add(l.get("id"))
+        # documented extents of pointer parameters: id -> (name, linear form in elements over parameter ids, octets per element)
+        self.sym_ext = dict(sym_ext or {})
+        for pid in list(self.sym_ext):
+            if pid in self.untracked or any(isinstance(n, dict) and n.get("k") in ("Bin", "Un") and
+                                            ((n.get("k") == "Bin" and n.get("op") in ir.ASSIGN_OPS and strip(n["x"]).get("id") == pid and strip(n["x"]).get("k") == "Ref") or
+                                             (n.get("k") == "Un" and n.get("op") in ("pre++", "pre--", "post++", "post--") and strip(n["e"]).get("id") == pid and strip(n["e"]).get("k") == "Ref"))
+                                            for n in walk(func.body)):
+                del self.sym_ext[pid]       # the parameter itself is advanced: its extent no longer starts at it
+        # an extent is the value its parameter had at entry (`while (n--) b[n] = a[n]` changes n, not the extent): it is
+        # expressed over ghost keys ("e", parameter id) that are tied to the parameters by equality facts at entry
+        self.ext_params = set()
+        for pid, (nm, l, esz) in list(self.sym_ext.items()):
+            self.ext_params |= set(l[0])
+            self.sym_ext[pid] = (nm, ({("e", k): c for k, c in l[0].items()}, l[1]), esz)
+        for k in self.ext_params:
+            self.ktype.setdefault(k, "size_t")
+            self.ktype[("e", k)] = "size_t"
         self.truncated = False
 
     # ---- expression values
@@ -705,20 +755,21 @@ class FxAnalyzer:
         best = None
         for f in env.facts:
             terms, c = f
-            if f in used or not any(k in l[0] for k, _ in terms):
+            if f in used:
                 continue
-            rest = lin_add(l, lin_scale((dict(terms), 0), -1))
-            if len(rest[0]) > len(l[0]) + 1:
-                continue
-            ub = self.plain_eval(rest, env)[1]
-            if depth > 1 and rest[0]:
-                ub2 = self.fact_bound(rest, env, depth - 1, used + (f,))
-                if ub2 is not None and (ub is None or ub2 < ub):
-                    ub = ub2
-            if ub is None:
-                continue
-            if best is None or c + ub < best:
-                best = c + ub
+            for k_ in _scales(l, terms):
+                rest = lin_add(l, lin_scale((dict(terms), 0), -k_))
+                if len(rest[0]) > len(l[0]) + 1:
+                    continue
+                ub = self.plain_eval(rest, env)[1]
+                if depth > 1 and rest[0]:
+                    ub2 = self.fact_bound(rest, env, depth - 1, used + (f,))
+                    if ub2 is not None and (ub is None or ub2 < ub):
+                        ub = ub2
+                if ub is None:
+                    continue
+                if best is None or k_ * c + ub < best:
+                    best = k_ * c + ub
         return best
 
     def ptype(self, e):
@@ -741,8 +792,15 @@ class FxAnalyzer:
                         return True
         return False
 
-    def note(self, line, text, obj, size, lo, hi, exprs=(), env=None):
-        """octets [lo, hi) relative to the object's start are touched (either end may be unknown)"""
+    def note(self, line, text, obj, size, lo, hi, exprs=(), env=None, min_end=None):
+        """octets [lo, hi) relative to the object's start are touched (either end may be unknown); min_end: the least
+        possible end of the touched range -- if even that lies beyond the object, every execution reaching here overruns"""
+        if min_end is not None and min_end > size and size > 0 and not (env is not None and self.derived_in(exprs, env)):
+            key = (line, text)
+            self.acc.setdefault(key, []).append("violation")
+            self.acc.setdefault(("#definite",) + key, []).append("violation")
+            self.detail.setdefault(key, (obj, size, lo, min_end))
+            return
         if not self.soft:
             if hi is not None and hi > BIG:
                 hi = None
@@ -761,6 +819,93 @@ class FxAnalyzer:
         if verdict != "inside":
             self.detail.setdefault(key, (obj, size, lo, hi))
 
+    # ---- documented (symbolic) extents
+    def sroot(self, e, env):
+        """(parameter id, octet offset as a linear form) of a pointer expression built on a parameter whose extent the
+        header documents, or None"""
+        if not isinstance(e, dict):
+            return None
+        k = e.get("k")
+        if k in ("Cast", "Paren"):
+            return self.sroot(e["e"], env)
+        if k == "Ref" and e.get("rk") == "param" and e.get("id") in self.sym_ext:
+            return e["id"], ({}, 0)
+        if k == "Bin" and e["op"] in ("+", "-") and strip(e["x"]).get("p") and not strip(e["y"]).get("p"):
+            a = self.sroot(e["x"], env)
+            if a is None:
+                return None
+            b = self.lin_safe(e["y"], env)
+            esz = self.ty.sizeof(self.ty.pointee(self.ptype(e["x"])) or "") or (1 if "void" in self.ptype(e["x"]) else None)
+            if b is None or not esz:
+                return a[0], None
+            return a[0], lin_add(a[1], lin_scale(b, esz if e["op"] == "+" else -esz))
+        if k == "Un" and e["op"] == "&" and strip(e["e"]).get("k") == "Index":
+            ix = strip(e["e"])
+            a = self.sroot(ix["b"], env)
+            if a is None:
+                return None
+            b = self.lin_safe(ix["i"], env)
+            esz = self.ty.sizeof(ix.get("t") or "")
+            if b is None or not esz or a[1] is None:
+                return a[0], None
+            return a[0], lin_add(a[1], lin_scale(b, esz))
+        return None
+
+    def rel_bound(self, l, env, depth=3, used=()):
+        """upper bound of l that rests on the facts alone: every variable is eliminated through facts learnt from tests
+        (an index and an extent related by `i <= n`), none through the interval of an unrelated variable"""
+        if not l[0]:
+            return l[1]
+        best = None
+        if depth <= 0:
+            return None
+        for f in env.facts:
+            terms, c = f
+            if f in used:
+                continue
+            for k_ in _scales(l, terms):
+                rest = lin_add(l, lin_scale((dict(terms), 0), -k_))
+                if len(rest[0]) > len(l[0]):
+                    continue
+                r = self.rel_bound(rest, env, depth - 1, used + (f,))
+                if r is not None and (best is None or k_ * c + r < best):
+                    best = k_ * c + r
+        return best
+
+    def note_sym(self, line, text, pid, start, length, env, exprs):
+        """octets [start, start + length) of the parameter with the documented extent (linear forms)"""
+        nm, ext, esz = self.sym_ext[pid]
+        size = lin_scale(ext, esz)
+        key = (line, text)
+        if start is None or length is None:
+            self.acc.setdefault(key, []).append("undecided")
+            self.detail.setdefault(key, ("param:" + nm, "doc", None, None))
+            return
+        over = lin_add(lin_add(start, length), lin_scale(size, -1))          # end - size, must be <= 0
+        ub = self.lin_eval(over, env)[1]
+        lo = self.lower(start, env)
+        if ub is not None and ub <= 0 and lo is not None and lo >= 0:
+            verdict = "inside"
+        else:
+            verdict = "undecided"
+            rb = self.rel_bound(over, env)
+            if rb is not None and rb > 0 and not self.derived_in(exprs, env):
+                verdict = "violation"
+            if lo is not None and lo < 0:
+                rl = self.rel_bound(lin_scale(start, -1), env)
+                if rl is not None and rl > 0 and not self.derived_in(exprs, env):
+                    verdict = "violation"
+        self.acc.setdefault(key, []).append(verdict)
+        if verdict != "inside":
+            self.detail.setdefault(key, ("param:" + nm, "documented [%s]" % self.show_lin(ext), lo, ub))
+
+    def show_lin(self, l):
+        names = {p["id"]: p["n"] for p in self.f.params}
+        parts = ["%s%s" % ("" if c == 1 else "%d*" % c, names.get(k, str(k))) for k, c in sorted(l[0].items(), key=repr)]
+        if l[1] or not parts:
+            parts.append(str(l[1]))
+        return " + ".join(parts)
+
     def check_expr(self, e, env, line, under_addr=False):
         """examine the accesses of e (sub-expressions included) in env"""
         if not isinstance(e, dict):
@@ -777,6 +922,12 @@ class FxAnalyzer:
                     self.note(line, "&" + self.text(e), base[1], base[2], off[0], off[1], (e,), env)
                 else:
                     self.note(line, self.text(e), base[1], base[2], off[0], None if off[1] is None else off[1] + esz, (e,), env)
+            elif base is None and esz and self.sym_ext:
+                sr = self.sroot(e["b"], env)
+                if sr is not None:
+                    il = self.lin_safe(e["i"], env)
+                    start = None if (sr[1] is None or il is None) else lin_add(sr[1], lin_scale(il, esz))
+                    self.note_sym(line, ("&" if under_addr else "") + self.text(e), sr[0], start, ({}, 0 if under_addr else esz), env, (e,))
             self.check_expr(e["b"], env, line)
             self.check_expr(e["i"], env, line)
             return
@@ -785,6 +936,10 @@ class FxAnalyzer:
             esz = self.ty.sizeof(e.get("t") or "")
             if p is not None and esz:
                 self.note(line, self.text(e), p[1], p[2], p[3][0], None if p[3][1] is None else p[3][1] + esz, (e,), env)
+            elif p is None and esz and self.sym_ext:
+                sr = self.sroot(e["e"], env)
+                if sr is not None:
+                    self.note_sym(line, self.text(e), sr[0], sr[1], ({}, esz), env, (e,))
             self.check_expr(e["e"], env, line)
             return
         if k == "Un" and e["op"] == "&":
@@ -797,6 +952,11 @@ class FxAnalyzer:
                 nl = self.lin_safe(e["a"][spec[1]], env)
                 for pi in spec[0]:
                     p = self.pval(e["a"][pi], env)
+                    if p is None and self.sym_ext and pi < len(e["a"]):
+                        sr = self.sroot(e["a"][pi], env)
+                        if sr is not None and ln[1] != 0:
+                            self.note_sym(line, "%s(.., %s, ..)" % (e["callee"], self.text(e["a"][pi])), sr[0], sr[1], nl, env,
+                                          (e["a"][pi], e["a"][spec[1]]))
                     if p is None:
                         continue
                     lo = p[3][0]
@@ -810,7 +970,8 @@ class FxAnalyzer:
                         if end[1] is not None and (hi is None or end[1] < hi):
                             hi = end[1]
                     self.note(line, "%s(.., %s, ..)" % (e["callee"], self.text(e["a"][pi])), p[1], p[2], lo, hi,
-                              (e["a"][pi], e["a"][spec[1]]), env)
+                              (e["a"][pi], e["a"][spec[1]]), env,
+                              min_end=None if (p[3][0] is None or ln[0] is None) else p[3][0] + ln[0])
             for a in e["a"]:
                 self.check_expr(a, env, line)
             return
@@ -962,8 +1123,7 @@ class FxAnalyzer:
             if not esz:
                 return env.set(ref["id"], None)
             return env.set(ref["id"], ("p", cur[1], cur[2], iv_add(cur[3], (d * esz, d * esz))))
-        v = iv_add(self.ival(ref, env), (d, d))
-        return env.kill(ref["id"]).set(ref["id"], self.fit(ref, v))
+        return self.store(ref["id"], ref, {"k": "Int", "v": 1, "t": "int"}, env, "+=" if d == 1 else "-=")
 
     def eval_split(self, e, env):
         """environments after an expression statement; `x = c ? a : b` is evaluated once per arm under the arm's
@@ -1327,6 +1487,9 @@ class FxAnalyzer:
         env = Env(m)
         for terms, c in self.entry_facts:
             env = env.add_fact({("f", f_): cf for f_, cf in terms}, c)
+        for k in sorted(getattr(self, "ext_params", ()), key=repr):
+            if k not in self.untracked:
+                env = env.add_fact({k: 1, ("e", k): -1}, 0).add_fact({k: -1, ("e", k): 1}, 0)
         return env
 
     def loop_heads(self, cfg):
@@ -1515,6 +1678,18 @@ class FxAnalyzer:
         return self
 
 
+def _scales(l, terms):
+    """positive integers k for which k * (fact) cancels a variable of l (k = 1 first)"""
+    ks = []
+    for key, cf in terms:
+        lc = l[0].get(key)
+        if lc is not None and cf != 0 and lc % cf == 0 and lc // cf > 0:
+            k = lc // cf
+            if k not in ks:
+                ks.append(k)
+    return sorted(ks)[:2]
+
+
 def lin_add(a, b):
     m = dict(a[0])
     for k, c in b[0].items():
@@ -1545,7 +1720,7 @@ def join(a, b):
         h = iv_hull(x, y)
         if h != TOP:
             m[k] = h
-    return Env(m, a.facts & b.facts)
+    return Env(m, join_facts(a.facts, b.facts))
 
 
 widen_join = join
